@@ -88,6 +88,12 @@ def check_shape(case):
     world = mk(model, kind, dims, case.get('flag', 'default'))
     # other grid worlds alive in the same process, built after this one and queried in between
     others = [Envs.GridWorld(new_model(seed=2), 4, 3), Envs.DiscreteWorld(new_model(seed=3), 2, 3, 4)]
+    if sum(dims) % 2 == 1 or case.get('big'):
+        # cell components (named before and after 'pos' in the alphabet, tuple-valued and scalar) have no bearing on
+        # which cells are neighbours
+        world.add_cell_component('elevation', lambda pos, cells: (9, 9, 9))
+        world.add_cell_component('Flow', lambda pos, cells: 3)
+        world.add_cell_component('zone', lambda pos, cells: (0, 0, 0))
     table = [tuple(p) for p in world.cells['pos']]
     d3 = list(dims) + [0] * (3 - len(dims))
     rmax = max(max(d3), 1) + 1
@@ -139,7 +145,7 @@ def check_shape(case):
                             pc.x, pc.y, pc.z = centre[0] + off, centre[1] + off, centre[2] + off
                         forms.append(('pc%s' % off, pc))
                     for fname, cpos in forms:
-                        for entry in ('specific', 'generic'):
+                        for entry in ('specific', 'generic', 'generic_positional'):
                             for ret in ('int', 'tuple'):
                                 q = [cid, r, metric, incl, fname, entry, ret]
                                 if only is not None and q != only:
@@ -150,6 +156,8 @@ def check_shape(case):
                                     fn = world.get_moore_neighbours if metric == 'moore' else \
                                         world.get_neumann_neighbours
                                     got = fn(cpos, r, incl, rt)
+                                elif entry == 'generic_positional':
+                                    got = world.get_neighbours(cpos, r, incl, rt, metric)
                                 else:
                                     got = world.get_neighbours(cpos, radius=r, incl_center=incl, ret_type=rt,
                                                                mode=metric)
